@@ -8,6 +8,7 @@ import (
 	"io"
 	"math/rand/v2"
 	"net/http"
+	"net/http/httptest"
 	"reflect"
 	"runtime/debug"
 	"strings"
@@ -36,6 +37,9 @@ type ReqPlan struct {
 	DefaultCode int       `json:"default_code,omitempty"`
 	AuthReject bool       `json:"auth_reject,omitempty"`
 	Faults     sim.Faults `json:"faults"`
+	// Local: the request does not cross the simulated wire; the client's *http.Request is handed to
+	// API.ServeHTTP with an httptest.ResponseRecorder, exactly as the generated LocalClient() does.
+	Local      bool       `json:"local,omitempty"`
 	Raw        []byte     `json:"raw,omitempty"`
 	RawDesc    []string   `json:"raw_desc,omitempty"`
 }
@@ -186,6 +190,9 @@ func (tr *Transport) Do(req *http.Request) (*http.Response, error) {
 	if err := req.Context().Err(); err != nil {
 		return nil, err
 	}
+	if rp.Local {
+		return e.localExchange(tag, req, o), nil
+	}
 	req.Header.Set("X-Verif-Tag", tag)
 	var buf bytes.Buffer
 	if err := req.Write(&buf); err != nil {
@@ -195,6 +202,35 @@ func (tr *Transport) Do(req *http.Request) (*http.Response, error) {
 	o.WireReq = wire
 	resp, err := e.exchange(tag, wire, rp, o, req)
 	return resp, err
+}
+
+// localExchange is the in-process transport of the generated LocalClient(): no serialisation, the handler runs
+// on the caller's task, the response is what an httptest.ResponseRecorder collected.
+func (e *env) localExchange(tag string, req *http.Request, o *ReqObs) *http.Response {
+	d := &sim.Delivery{Tag: tag, Entered: true}
+	o.Deliveries = append(o.Deliveries, d)
+	t := e.s.Cur
+	prev, had := taskData[t]
+	taskData[t] = d
+	req.Header.Set("X-Verif-Tag", tag)
+	rec := httptest.NewRecorder()
+	func() {
+		defer func() {
+			if r := recover(); r != nil {
+				d.Panic = fmt.Sprint(r)
+				d.PanicStack = string(debug.Stack())
+			}
+		}()
+		e.api.Interface().(http.Handler).ServeHTTP(rec, req)
+	}()
+	if had {
+		taskData[t] = prev
+	} else {
+		delete(taskData, t)
+	}
+	d.Status, d.Finished, d.HeaderWrites = rec.Code, true, 1
+	e.s.Probes["local_in_process_exchange"]++
+	return rec.Result()
 }
 
 // exchange sends wire bytes to the server shell and returns the parsed response.
